@@ -38,6 +38,30 @@ func genC13(r *RNG, idx int, tier string) *Scenario {
 	switch kind {
 	case "crop-yml-converted", "crop-yml-shipped":
 		w.Cfg.CropParamFmt = "txt"
+		if idx%4 == 1 {
+			// perennial stand following itself (alfalfa, grassland): the readers treat the re-sown stand differently from a new one
+			per := r.PickS([]string{"AA", "GR"})
+			if paramTables.Crops[per] {
+				start := w.Start()
+				y := start.Year() + 1
+				rot := w.Rot[:1]
+				sow := DayOf(y, 4, r.Range(1, 20))
+				for k := 0; k < r.Range(3, 4); k++ {
+					har := DayOf(sow.Year()+boolInt(k > 0), 10, 15)
+					rot = append(rot, RotEntry{Crop: per, Sow: sow, Harvest: har, Rex: r.PickI([]int{0, 100})})
+					sow = har + 1
+				}
+				w.Rot = rot
+				w.Till = nil
+				last := rot[len(rot)-1].Harvest
+				w.Cfg.End = last + Day(r.Range(10, 60))
+				if w.Weather.LastDay < DayOf(w.Cfg.End.Year()+1, 12, 31) {
+					w.Weather.LastDay = DayOf(w.Cfg.End.Year()+1, 12, 31)
+				}
+				fixAnnual(w)
+				w.Auto = genAutoLines(r, w)
+			}
+		}
 	case "soil":
 		w.Cfg.SoilExt = "txt"
 	case "rotation":
